@@ -16,11 +16,19 @@ R1  publish last (T-ORDER over the validation pipeline).  pydantic runs the
     function or in the validator that called it.  Accepted alternative: every
     fallible step after the publish is covered by a handler that stores None
     back and re-raises.
-R2  frozen closure: every model class reachable from Config through field
-    annotations declares frozen=True; a write that bypasses the frozen model
-    (object.__setattr__/__delattr__, a store into __dict__) on a configuration
-    object happens only in functions that are reachable *only* from Config's
-    own validators (call graph over resolved callers), i.e. before publication.
+R2  frozen closure: every class of values reachable from Config through field
+    annotations (pydantic models, dataclasses) is immutable.  For a model the
+    effective `frozen` setting is computed the way pydantic merges it: nearest
+    class on the MRO first (a shared base class in another module counts),
+    class keywords (`class X(Base, frozen=True)`) before the class's
+    model_config, settings followed through named constants, `**` entries,
+    dict displays and `Base.model_config`; a setting that cannot be read, or a
+    base class from outside the repository, is UNDECIDED, not a violation.  A
+    dataclass must be `@dataclass(frozen=True)`.  A write that bypasses the
+    frozen model (object.__setattr__/__delattr__, a store into __dict__) on a
+    configuration object happens only in functions that are reachable *only*
+    from Config's own validators (call graph over resolved callers), i.e.
+    before publication.
 R3  guards, by null-ness of the singleton: every function that uses the
     singleton's value does so only where it is known not to be None; Config.get
     and both proxy methods return normally only when a configuration is active
@@ -36,9 +44,19 @@ R5  key normalisation keeps the overlay order: the normaliser walks the items
     earlier one.
 R4  precedence, by symbolic execution of Config.load: the data handed to
     validation is defaults <- file <- keyword arguments on every path (a file
-    that was not given and empty keyword arguments count as empty layers), each
-    step is the recursive merge (a shallow merge of two non-empty layers loses
-    nested keys), and the merge function itself, decided by cases on
+    that was not given and empty keyword arguments count as empty layers).  The
+    execution follows the layers through helpers, tuples and lists held in
+    locals, records (NamedTuple / dataclass / plain class with __init__: built
+    by position, keyword and default, read by field, index, unpacking,
+    iteration, `_fields` + getattr, `_replace`), their methods and properties,
+    `reversed`, `functools.reduce`; the merge functions it judges are those the
+    execution really went through.  When the order is wrong and a layer was
+    put into a field or parameter named after another layer (`file=keywords`),
+    that construction site is reported as the place of the mistake (the names
+    only locate, they never decide).  Data touched by something the execution
+    cannot follow is UNDECIDED, never "layer missing".  Each step is the
+    recursive merge (a shallow merge of two non-empty layers loses nested
+    keys), and the merge function itself, decided by cases on
     (base entry absent / scalar / table) x (overlay value scalar / table),
     recurses exactly when both sides are tables and lets the overlay value win
     otherwise.
@@ -708,6 +726,15 @@ class _Undecided(Exception):
 # R4: symbolic execution of Config.load
 # ------------------------------------------------------------------------------------------------------------------
 
+class _Extra(str):
+    """a reason why a dict is not exactly the merge of its layers that cannot account for a missing or misplaced
+    layer (an entry set by hand): the order verdict stands, a clean verdict does not"""
+
+
+def _real(u):
+    return None if isinstance(u, _Extra) else u
+
+
 class _Cell:
     __slots__ = ('layers', 'shallow', 'unknown')
 
@@ -719,14 +746,15 @@ class _Cell:
 
 
 class _State:
-    def __init__(self, env=None, heap=None, absent=frozenset(), given=frozenset()):
+    def __init__(self, env=None, heap=None, absent=frozenset(), given=frozenset(), notes=()):
         self.env = dict(env or {})
         self.heap = {k: v.copy() for k, v in (heap or {}).items()}
         self.absent = absent      # layers known to be empty on this path ('F': no file given, 'K': no keyword arguments)
         self.given = given        # layers known to be non-empty / present
+        self.notes = tuple(notes)  # (line, text): a layer bound to a field / parameter named after another layer
 
     def fork(self):
-        return _State(self.env, self.heap, self.absent, self.given)
+        return _State(self.env, self.heap, self.absent, self.given, self.notes)
 
     def new_cell(self, layers=(), shallow=None, unknown=None):
         i = len(self.heap) + 1
@@ -745,7 +773,8 @@ class LoadExec:
     def __init__(self, ctx, prog, m, ld, merge_fns):
         self.ctx, self.prog, self.m, self.ld = ctx, prog, m, ld
         self.merge_fns = merge_fns     # {(file, qualname): MergeFn}
-        self.finals = []               # (line, layers, shallow, unknown, absent)
+        self.finals = []               # (line, layers, shallow, unknown, absent, notes)
+        self.used = set()              # merge functions the execution went through
         self.count = 0
 
     # -- helpers -----------------------------------------------------------------------------------------------------
@@ -760,10 +789,125 @@ class LoadExec:
                     out += self._const_strings(FunctionInfo('<module>', fi.node, r[1]), r[1].constants[r[2]], depth + 1)
         return out
 
+    # -- records and sequences -----------------------------------------------------------------------------------------
+    # values: ('tuple', [v, ...])            an immutable sequence (tuple display, NamedTuple fields, reversed(...))
+    #         ('tuple', [v, ...], 'list')    a list display: like a tuple as long as nothing mutates it
+    #         ('rec', ClassInfo, ((field, v), ...), is_tuple)   an instance of a repository class, by field
+
+    _READS = ('get', 'keys', 'items', 'values', '__contains__', '__len__', '__getitem__', 'index', 'count')
+    _SEQ_MUTATORS = ('append', 'extend', 'insert', 'pop', 'remove', 'sort', 'reverse', 'clear')
+
+    def _record_shape(self, rc):
+        """(field names in constructor order, {field: (class, default expr)}, is_tuple) when instances of rc are built
+        by a generated constructor (NamedTuple / dataclass without __init__/__new__); None otherwise"""
+        if any(n in k.methods for k in rc.mro() for n in ('__init__', '__new__')):
+            return None
+        is_nt = any(b.split('[')[0].split('.')[-1] == 'NamedTuple' for k in rc.mro() for b in k.base_exprs)
+        is_dc = any('dataclass' in ast.unparse(d) for k in rc.mro() for d in k.node.decorator_list)
+        if not (is_nt or is_dc):
+            return None
+        names, defaults = [], {}
+        for k in reversed(rc.mro()):
+            for st in k.node.body:
+                if isinstance(st, ast.AnnAssign) and isinstance(st.target, ast.Name) and 'ClassVar' not in ast.unparse(st.annotation):
+                    if st.target.id not in names:
+                        names.append(st.target.id)
+                    if st.value is not None:
+                        defaults[st.target.id] = (k, st.value)
+        return names, defaults, is_nt
+
+    @staticmethod
+    def _elements(v):
+        """the elements of a sequence value, in iteration order; None when v is not a sequence the execution knows"""
+        if isinstance(v, tuple) and v[0] == 'tuple':
+            return list(v[1])
+        if isinstance(v, tuple) and v[0] == 'rec' and v[3]:
+            return [x for _, x in v[2]]
+        return None
+
+    @staticmethod
+    def _layer_role(name):
+        """the layer an identifier is named after (lexical; used only to *explain* a wrong order, never to decide)"""
+        n = name.lower()
+        if 'default' in n:
+            return 'D'
+        if any(k in n for k in ('kw', 'keyword', 'override')):
+            return 'K'
+        if any(k in n for k in ('file', 'toml', 'user')):
+            return 'F'
+        return None
+
+    def _note_binding(self, s, fi, name, v, line, text, what):
+        """remember that a value holding exactly one layer was bound to a field / parameter named after another one"""
+        if isinstance(v, tuple) and v[0] == 'cell' and len(s.heap[v[1]].layers) == 1:
+            role, lay = self._layer_role(name), s.heap[v[1]].layers[0]
+            if role is not None and role != lay:
+                nm = {'D': 'the defaults', 'F': "the file's data", 'K': 'the keyword arguments'}
+                s.notes = s.notes + ((fi, line, f'`{text}` (line {line}) hands {nm[lay]} to {what} `{name}`'),)
+
+    def _construct(self, fi, c, rc, st, depth):
+        """ClassName(...) of a repository class that is not a pydantic model: the instance, by field"""
+        shape = self._record_shape(rc)
+        if shape is None:
+            init = rc.find_method('__init__')
+            if init is None or depth >= 4:
+                return None
+            return self._inline(fi, c, init, st, depth, recv=('rec', rc, (), False), ctor=True)
+        names, defaults, is_nt = shape
+        if any(isinstance(a, ast.Starred) for a in c.args) or any(k.arg is None for k in c.keywords) or len(c.args) > len(names):
+            raise _Undecided(f'`{norm(c)[:50]}`: record built from star arguments')
+        exprs = {names[i]: (fi, a) for i, a in enumerate(c.args)}
+        for kw in c.keywords:
+            exprs[kw.arg] = (fi, kw.value)
+
+        def gen():
+            outs = [([], st)]
+            for nm in names:
+                if nm in exprs:
+                    src_fi, ex = exprs[nm]
+                elif nm in defaults:
+                    k, ex = defaults[nm]
+                    src_fi = FunctionInfo('<class>', fi.node, k.module)
+                    fac = kwarg(ex, 'default_factory') if isinstance(ex, ast.Call) and call_name(ex).split('.')[-1] == 'field' else None
+                    if fac is not None:
+                        ex = ast.copy_location(ast.Call(func=fac, args=[], keywords=[]), ex)
+                else:
+                    outs = [(vals + [(nm, ('unk', nm))], s) for vals, s in outs]
+                    continue
+                outs = [(vals + [(nm, v)], s2) for vals, s in outs for v, s2 in self.eval(src_fi, ex, s, depth)]
+            post = rc.find_method('__post_init__')
+            for vals, s in outs:
+                for nm, v in vals:
+                    if nm in exprs:
+                        self._note_binding(s, fi, nm, v, c.lineno, norm(c)[:70], 'field')
+                rec = ('rec', rc, tuple(vals), is_nt)
+                if post is not None and not is_nt and depth < 4:
+                    empty = ast.copy_location(ast.Call(func=c.func, args=[], keywords=[]), c)
+                    yield from self._inline(fi, empty, post, s, depth, recv=rec, ctor=True)
+                else:
+                    yield rec, s
+        return gen()
+
+    def _rec_attr(self, fi, e, v, s, depth):
+        """value of `<record>.attr`"""
+        flds = dict(v[2])
+        if e.attr in flds:
+            yield flds[e.attr], s
+            return
+        if e.attr == '_fields' and v[3]:
+            yield ('tuple', [('const', n) for n, _ in v[2]]), s
+            return
+        meth = v[1].find_method(e.attr)
+        if meth is not None and any('property' in d for d in meth.decorators()) and depth < 4:
+            empty = ast.copy_location(ast.Call(func=e, args=[], keywords=[]), e)
+            yield from self._inline(fi, empty, meth, s, depth, recv=v)
+            return
+        yield ('unk', norm(e)[:30]), s
+
     def _merge(self, st, base, over, how, line):
         """in-place merge of cell `over` into cell `base`"""
         b, o = st.heap[base[1]], st.heap[over[1]]
-        if o.unknown and not b.unknown:
+        if o.unknown and not _real(b.unknown):
             b.unknown = o.unknown
         if o.shallow and not b.shallow:
             b.shallow = o.shallow
@@ -889,20 +1033,44 @@ class LoadExec:
             for v, s in self.eval(fi, e.left, st, depth):
                 yield (v if isinstance(v, tuple) and v[0] == 'path' else ('unk', 'path')), s
             return
-        if isinstance(e, ast.Tuple):
+        if isinstance(e, (ast.Tuple, ast.List)) and not any(isinstance(x, ast.Starred) for x in e.elts):
             outs = [([], st)]
             for x in e.elts:
                 outs = [(vals + [v], s2) for vals, s in outs for v, s2 in self.eval(fi, x, s, depth)]
             for vals, s in outs:
-                yield ('tuple', vals), s
+                yield (('tuple', vals) if isinstance(e, ast.Tuple) else ('tuple', vals, 'list')), s
+            return
+        if isinstance(e, ast.BinOp) and isinstance(e.op, ast.Add):
+            for a, s1 in self.eval(fi, e.left, st, depth):
+                for b, s2 in self.eval(fi, e.right, s1, depth):
+                    ea, eb = self._elements(a), self._elements(b)
+                    if ea is not None and eb is not None:
+                        yield ('tuple', ea + eb) + tuple(a[2:3] if a[0] == 'tuple' else ()), s2
+                    else:
+                        yield ('unk', norm(e)[:30]), s2
             return
         if isinstance(e, ast.Attribute):
             for v, s in self.eval(fi, e.value, st, depth):
-                if isinstance(v, tuple) and v[0] == 'path':
+                if isinstance(v, tuple) and v[0] == 'rec':
+                    yield from self._rec_attr(fi, e, v, s, depth)
+                elif isinstance(v, tuple) and v[0] == 'path':
                     yield v, s       # .parent / .name of a path keep telling which file it is about
                 else:
                     yield ('unk', norm(e)[:30]), s
             return
+        if isinstance(e, ast.Subscript):
+            idx = e.slice
+            if isinstance(idx, ast.UnaryOp) and isinstance(idx.op, ast.USub) and isinstance(idx.operand, ast.Constant) \
+                    and isinstance(idx.operand.value, int):
+                idx = ast.Constant(-idx.operand.value)
+            if isinstance(idx, ast.Constant) and isinstance(idx.value, int) and not isinstance(idx.value, bool):
+                for v, s in self.eval(fi, e.value, st, depth):
+                    seq = self._elements(v)
+                    if seq is not None and -len(seq) <= idx.value < len(seq):
+                        yield seq[idx.value], s
+                    else:
+                        yield ('unk', norm(e)[:30]), s
+                return
         if isinstance(e, ast.Call):
             yield from self._call(fi, e, st, depth)
             return
@@ -922,9 +1090,9 @@ class LoadExec:
                 if isinstance(val, tuple) and val[0] == 'cell':
                     self._merge(s, res, val, 'shallow', line)
                 elif isinstance(val, tuple) and val[0] == 'literal':
-                    s.heap[res[1]].unknown = s.heap[res[1]].unknown or f'line {line}: literal entry {val[1]} added to the data'
+                    s.heap[res[1]].unknown = s.heap[res[1]].unknown or _Extra(f'line {line}: literal entry {val[1]} added to the data')
                 else:
-                    s.heap[res[1]].unknown = s.heap[res[1]].unknown or f'line {line}: cannot tell what `{val}` contributes'
+                    s.heap[res[1]].unknown = _real(s.heap[res[1]].unknown) or f'line {line}: cannot tell what `{val}` contributes'
             yield res, s
 
     def _call(self, fi, c, st, depth):
@@ -941,10 +1109,53 @@ class LoadExec:
                 self._final(c, v, s)
                 yield ('config',), s
             return
+        # an instance of a repository class that is not a model: NamedTuple / dataclass / plain class, kept by field
+        rc = self.prog.resolve_class_expr(fi.module, c.func) if isinstance(c.func, (ast.Name, ast.Attribute)) else None
+        if rc is not None and not any(b.split('.')[-1] in ('BaseModel', 'CIBaseModel') for k in rc.mro() for b in k.base_exprs):
+            built = self._construct(fi, c, rc, st, depth)
+            if built is not None:
+                yield from built
+                return
+        if cn == 'getattr' and len(c.args) >= 2:
+            for v, s in self.eval(fi, c.args[0], st, depth):
+                for nv, s2 in self.eval(fi, c.args[1], s, depth):
+                    if isinstance(v, tuple) and v[0] == 'rec' and isinstance(nv, tuple) and nv[0] == 'const' and nv[1] in dict(v[2]):
+                        yield dict(v[2])[nv[1]], s2
+                    else:
+                        yield ('unk', cn), s2
+            return
+        if cn in ('reversed', 'tuple', 'list', 'iter') and len(c.args) == 1 and not c.keywords:
+            for v, s in self.eval(fi, c.args[0], st, depth):
+                seq = self._elements(v)
+                if seq is None:
+                    yield ('unk', cn), s
+                else:
+                    yield ('tuple', seq[::-1] if cn == 'reversed' else seq) + (('list',) if cn == 'list' else ()), s
+            return
+        if last == 'reduce' and cn in ('reduce', 'functools.reduce') and len(c.args) in (2, 3) and not c.keywords:
+            # reduce(f, seq[, init]) over a sequence the execution knows: f(...f(f(init, s0), s1)..., sn)
+            for sv, s in self.eval(fi, c.args[1], st, depth):
+                seq = self._elements(sv)
+                if seq is None:
+                    raise _Undecided(f'`{norm(c)[:50]}`: reduce over a sequence that is not known')
+                accs = list(self.eval(fi, c.args[2], s, depth)) if len(c.args) == 3 else ([(seq[0], s)] if seq else [])
+                rest = seq if len(c.args) == 3 else seq[1:]
+                for el in rest:
+                    nxt = []
+                    for acc, s1 in accs:
+                        s1.env['@acc'], s1.env['@el'] = acc, el
+                        step = ast.copy_location(ast.Call(func=c.args[0], args=[ast.Name('@acc', ast.Load()), ast.Name('@el', ast.Load())],
+                                                          keywords=[]), c)
+                        ast.fix_missing_locations(step)
+                        nxt += list(self._call(fi, step, s1, depth))
+                    accs = nxt
+                yield from accs
+            return
         callee = resolve_call(self.prog, fi, c)
         # the recursive merge
         if callee is not None and (callee.file, callee.qualname) in self.merge_fns:
             mf = self.merge_fns[(callee.file, callee.qualname)]
+            self.used.add((callee.file, callee.qualname))
             pos = [p for p in callee.params if p not in ('self', 'cls')]
             args = {}
             for i, a in enumerate(c.args[:2]):
@@ -960,7 +1171,7 @@ class LoadExec:
                                 self._merge(s2, bv, ov, 'deep', c.lineno)
                             yield (bv if mf.returns_base else ('none',)), s2
                         elif isinstance(bv, tuple) and bv[0] == 'cell':
-                            s2.heap[bv[1]].unknown = s2.heap[bv[1]].unknown or f'line {c.lineno}: cannot tell what `{norm(args[mf.overlay])[:40]}` holds'
+                            s2.heap[bv[1]].unknown = _real(s2.heap[bv[1]].unknown) or f'line {c.lineno}: cannot tell what `{norm(args[mf.overlay])[:40]}` holds'
                             yield bv, s2
                         else:
                             r = s2.new_cell(unknown=f'line {c.lineno}: cannot tell what `{norm(args[mf.base])[:40]}` holds')
@@ -1028,7 +1239,7 @@ class LoadExec:
                     if isinstance(bv, tuple) and bv[0] == 'cell' and isinstance(ov, tuple) and ov[0] == 'cell':
                         self._merge(s2, bv, ov, 'shallow', c.lineno)
                     elif isinstance(bv, tuple) and bv[0] == 'cell':
-                        s2.heap[bv[1]].unknown = s2.heap[bv[1]].unknown or f'line {c.lineno}: update() with unidentified data'
+                        s2.heap[bv[1]].unknown = _real(s2.heap[bv[1]].unknown) or f'line {c.lineno}: update() with unidentified data'
                     yield ('none',), s2
             return
         if last in ('ChainMap',):
@@ -1042,20 +1253,65 @@ class LoadExec:
         if callee is not None and depth < 4 and callee.name not in ('__init__',):
             yield from self._inline(fi, c, callee, st, depth)
             return
-        # unknown call: a dict handed to it may be changed by it
-        outs = [([], st)]
-        for a in list(c.args) + [k.value for k in c.keywords]:
-            outs = [(vals + [v], s2) for vals, s in outs for v, s2 in self.eval(fi, a, s, depth)]
-        for vals, s in outs:
-            for v in vals:
-                if isinstance(v, tuple) and v[0] == 'cell':
-                    s.heap[v[1]].unknown = s.heap[v[1]].unknown or f'line {c.lineno}: passed to `{cn}`, which may change it'
-            yield ('unk', cn), s
+        # a method the resolver could not place: look at what the receiver is on this path
+        starts = [(None, st)]
+        if isinstance(c.func, ast.Attribute) and callee is None:
+            starts = list(self.eval(fi, c.func.value, st, depth))
+        for rv, s0 in starts:
+            if isinstance(rv, tuple) and rv[0] == 'rec':
+                if c.func.attr == '_replace' and rv[3] and not c.args and all(k.arg in dict(rv[2]) for k in c.keywords):
+                    outs = [(dict(rv[2]), s0)]
+                    for k in c.keywords:
+                        outs = [(dict(d, **{k.arg: v}), s2) for d, s in outs for v, s2 in self.eval(fi, k.value, s, depth)]
+                    for d, s in outs:
+                        yield ('rec', rv[1], tuple((n, d[n]) for n, _ in rv[2]), rv[3]), s
+                    continue
+                meth = rv[1].find_method(c.func.attr)
+                if meth is not None and depth < 4:
+                    yield from self._inline(fi, c, meth, s0, depth, recv=rv)
+                    continue
+            if isinstance(rv, tuple) and rv[0] == 'tuple' and rv[2:] == ('list',) and c.func.attr in self._SEQ_MUTATORS:
+                raise _Undecided(f'`{norm(c)[:50]}`: a list of layers is changed in place')
+            if isinstance(rv, tuple) and rv[0] == 'cell' and c.func.attr not in self._READS:
+                s0.heap[rv[1]].unknown = _real(s0.heap[rv[1]].unknown) or f'line {c.lineno}: `{norm(c)[:40]}` may change the data'
+            # unknown call: a dict handed to it may be changed by it
+            outs = [([], s0)]
+            for a in list(c.args) + [k.value for k in c.keywords]:
+                outs = [(vals + [v], s2) for vals, s in outs for v, s2 in self.eval(fi, a, s, depth)]
+            for vals, s in outs:
+                for v in vals:
+                    if isinstance(v, tuple) and v[0] == 'cell':
+                        s.heap[v[1]].unknown = _real(s.heap[v[1]].unknown) or f'line {c.lineno}: passed to `{cn}`, which may change it'
+                yield ('unk', cn), s
 
-    def _inline(self, fi, c, callee, st, depth):
+    def _inline(self, fi, c, callee, st, depth, recv=None, ctor=False):
+        """execute a resolved callee on the arguments of call c.  recv: the receiver when it has been evaluated already;
+        ctor: the callee initialises recv (`__init__` / `__post_init__`) and the call's value is the instance"""
         params = callee.params
         a = callee.node.args
-        implicit = 1 if callee.cls is not None and not any('staticmethod' in d for d in callee.decorators()) else 0
+        decs = callee.decorators()
+        is_static = any('staticmethod' in d for d in decs)
+        is_clsm = any('classmethod' in d for d in decs)
+        implicit = 1 if callee.cls is not None and not is_static and (isinstance(c.func, ast.Attribute) or ctor) else 0
+        starts = [(recv, st)]
+        if implicit and not is_clsm and recv is None and isinstance(c.func, ast.Attribute):
+            r = c.func.value
+            if isinstance(r, ast.Name) and r.id == 'cls' or self.prog.resolve_class_expr(fi.module, r) is not None:
+                implicit = 0      # Class.method(obj, ...): the instance is the first argument
+            elif not (isinstance(r, ast.Call) and call_name(r) == 'super'):
+                starts = list(self.eval(fi, r, st, depth))
+        for rv, st in starts:
+            target = callee
+            if isinstance(rv, tuple) and rv[0] == 'rec' and not ctor and isinstance(c.func, ast.Attribute):
+                target = rv[1].find_method(c.func.attr) or callee     # the method of the class the value really has
+            if target is not callee:
+                yield from self._inline(fi, c, target, st, depth, recv=rv)
+                continue
+            yield from self._enter(fi, c, callee, st, depth, implicit, rv, ctor)
+
+    def _enter(self, fi, c, callee, st, depth, implicit, rv, ctor):
+        params = callee.params
+        a = callee.node.args
         names = params[implicit:]
         exprs = {}
         for i, x in enumerate(c.args):
@@ -1072,19 +1328,31 @@ class LoadExec:
         pos = a.posonlyargs + a.args
         defaults = dict(zip([p.arg for p in pos[len(pos) - len(a.defaults):]], a.defaults))
         defaults.update({p.arg: d for p, d in zip(a.kwonlyargs, a.kw_defaults) if d is not None})
-        states = [({}, st)]
+        env0 = {}
+        if implicit and rv is not None and params:
+            env0[params[0]] = rv
+        states = [(env0, st)]
         for nm in names:
             ex = exprs.get(nm, defaults.get(nm))
             if ex is None:
                 continue
             src_fi = fi if nm in exprs else callee
-            states = [(dict(env, **{nm: v}), s2) for env, s in states for v, s2 in self.eval(src_fi, ex, s, depth)]
+            nxt = []
+            for env, s in states:
+                for v, s2 in self.eval(src_fi, ex, s, depth):
+                    if nm in exprs:
+                        self._note_binding(s2, fi, nm, v, c.lineno, norm(c)[:70], 'parameter')
+                    nxt.append((dict(env, **{nm: v}), s2))
+            states = nxt
         for env, s in states:
             saved = s.env
             s.env = dict(env)
+            if ctor and params:
+                s.env['@ctor'] = params[0]
             for kind, v, s2 in self.exec_block(callee, callee.node.body, s, depth + 1):
+                built = s2.env.get(params[0]) if ctor and params else None
                 s2.env = dict(saved)
-                yield (v if kind == 'return' else ('none',)), s2
+                yield (built if ctor else v if kind == 'return' else ('none',)), s2
 
     # -- statements ------------------------------------------------------------------------------------------------------
     def exec_block(self, fi, body, st, depth=0):
@@ -1107,16 +1375,24 @@ class LoadExec:
     def _assign(self, target, v, s):
         if isinstance(target, ast.Name):
             s.env[target.id] = v
-        elif isinstance(target, (ast.Tuple, ast.List)) and isinstance(v, tuple) and v[0] == 'tuple' and len(v[1]) == len(target.elts):
-            for t, x in zip(target.elts, v[1]):
+        elif isinstance(target, (ast.Tuple, ast.List)) and self._elements(v) is not None \
+                and len(self._elements(v)) == len(target.elts) and not any(isinstance(t, ast.Starred) for t in target.elts):
+            for t, x in zip(target.elts, self._elements(v)):
                 self._assign(t, x, s)
+        elif isinstance(target, ast.Attribute) and isinstance(target.value, ast.Name) \
+                and isinstance(s.env.get(target.value.id), tuple) and s.env[target.value.id][0] == 'rec':
+            rec = s.env[target.value.id]
+            if s.env.get('@ctor') != target.value.id:
+                raise _Undecided(f'`{norm(target)[:40]}` of a record is assigned outside its constructor')
+            flds = [(n, x) for n, x in rec[2] if n != target.attr] + [(target.attr, v)]
+            s.env[target.value.id] = ('rec', rec[1], tuple(flds), rec[3])
         elif isinstance(target, (ast.Tuple, ast.List)):
             for t in target.elts:
                 self._assign(t, ('unk', 'unpacked'), s)
         elif isinstance(target, ast.Subscript) and isinstance(target.value, ast.Name):
             tv = s.env.get(target.value.id)
             if isinstance(tv, tuple) and tv[0] == 'cell':
-                s.heap[tv[1]].unknown = s.heap[tv[1]].unknown or f'line {target.lineno}: entry {norm(target)[:40]} is set by hand'
+                s.heap[tv[1]].unknown = s.heap[tv[1]].unknown or _Extra(f'line {target.lineno}: entry {norm(target)[:40]} is set by hand')
 
     def exec_stmt(self, fi, stmt, st, depth):
         if isinstance(stmt, (ast.Pass, ast.Global, ast.Nonlocal, ast.Import, ast.ImportFrom, ast.Assert)):
@@ -1143,6 +1419,16 @@ class LoadExec:
                         if isinstance(bv, tuple) and bv[0] == 'cell' and isinstance(ov, tuple) and ov[0] == 'cell':
                             self._merge(s2, bv, ov, 'shallow', stmt.lineno)
                         yield 'fall', None, s2
+            elif isinstance(stmt.op, ast.Add) and isinstance(stmt.target, ast.Name) and self._elements(st.env.get(stmt.target.id)) is not None:
+                cur = st.env[stmt.target.id]
+                if cur[0] != 'tuple' or cur[2:] == ('list',):
+                    raise _Undecided(f'`{norm(stmt)[:50]}`: a list of layers is changed in place')
+                for ov, s2 in self.eval(fi, stmt.value, st, depth):
+                    more = self._elements(ov)
+                    if more is None:
+                        raise _Undecided(f'`{norm(stmt)[:50]}`: sequence extended by something that is not known')
+                    s2.env[stmt.target.id] = ('tuple', list(cur[1]) + more)
+                    yield 'fall', None, s2
             else:
                 yield 'fall', None, st
         elif isinstance(stmt, ast.Return):
@@ -1191,12 +1477,31 @@ class LoadExec:
                 for s in states:
                     yield 'fall', None, s
             else:
-                # a loop over something else: whatever it touches is no longer known
-                for x in ast.walk(stmt):
-                    if isinstance(x, ast.Name) and isinstance(st.env.get(x.id), tuple) and st.env[x.id][0] == 'cell':
-                        cell = st.heap[st.env[x.id][1]]
-                        cell.unknown = cell.unknown or f'line {stmt.lineno}: used inside a loop that is not over a literal sequence'
-                yield 'fall', None, st
+                for itv, st in (self.eval(fi, stmt.iter, st, depth) if not stmt.orelse else [(None, st)]):
+                    seq = self._elements(itv)
+                    if seq is not None:
+                        # a sequence the execution knows (a tuple held in a local, the fields of a NamedTuple, ...)
+                        states = [st]
+                        for v in seq:
+                            nxt = []
+                            for s in states:
+                                s2 = s.fork()
+                                self._assign(stmt.target, v, s2)
+                                for kind, rv, s3 in self.exec_block(fi, stmt.body, s2, depth):
+                                    if kind == 'fall':
+                                        nxt.append(s3)
+                                    else:
+                                        yield kind, rv, s3
+                            states = nxt
+                        for s in states:
+                            yield 'fall', None, s
+                        continue
+                    # a loop over something else: whatever it touches is no longer known
+                    for x in ast.walk(stmt):
+                        if isinstance(x, ast.Name) and isinstance(st.env.get(x.id), tuple) and st.env[x.id][0] == 'cell':
+                            cell = st.heap[st.env[x.id][1]]
+                            cell.unknown = _real(cell.unknown) or f'line {stmt.lineno}: used inside a loop that is not over a literal sequence'
+                    yield 'fall', None, st
         elif isinstance(stmt, ast.Raise):
             return
         elif isinstance(stmt, (ast.FunctionDef, ast.ClassDef)):
@@ -1207,9 +1512,9 @@ class LoadExec:
     def _final(self, c, v, s):
         if isinstance(v, tuple) and v[0] == 'cell':
             cell = s.heap[v[1]]
-            self.finals.append((c.lineno, cell.layers, cell.shallow, cell.unknown, s.absent))
+            self.finals.append((c.lineno, cell.layers, cell.shallow, cell.unknown, s.absent, s.notes))
         else:
-            self.finals.append((c.lineno, (), None, f'line {c.lineno}: cannot tell what `{norm(c.args[0] if c.args else c)[:40]}` holds', s.absent))
+            self.finals.append((c.lineno, (), None, f'line {c.lineno}: cannot tell what `{norm(c.args[0] if c.args else c)[:40]}` holds', s.absent, s.notes))
 
     def run(self):
         ld = self.ld
@@ -1229,36 +1534,40 @@ class LoadExec:
 
 def rule_precedence(ctx, prog, m):
     ld = m.func('Config.load')
-    # candidate merge functions: two-parameter functions reached from load that call themselves
+    # candidate merge functions: two-parameter functions that walk one parameter mapping and store into the other one
+    # under the same key.  Which of them load really uses is found by the execution (a merge can be reached through a
+    # method of a record, through functools.reduce, through a property: none of these is a resolved call edge).
     merge_fns = {}
-    for fn in closure(prog, [ld]):
-        if fn is ld or fn.cls is not None and fn.cls.name == 'Config' and fn.name != 'load' and False:
-            continue
+    reach = {(f.file, f.qualname) for f in closure(prog, [ld])}
+    for fn in prog.all_functions():
         ps = [p for p in fn.params if p not in ('self', 'cls')]
-        if len(ps) == 2 and fn is not ld:
+        if len(ps) == 2 and fn is not ld and (fn.file, fn.qualname) not in merge_fns:
             mf = MergeFn(prog, fn)
-            # a function that walks one parameter mapping and stores into the other one under the same key
             if mf.overlay is not None and any(
                     isinstance(t, ast.Subscript) and isinstance(t.value, ast.Name) and t.value.id == mf.base
                     for t, _, _ in stores_to(fn.node)) or (mf.overlay is not None and any(
                         isinstance(c.func, ast.Attribute) and isinstance(c.func.value, ast.Name) and c.func.value.id == mf.base
                         and c.func.attr in ('setdefault', 'update') for c in calls_in(fn.node))):
                 merge_fns[(fn.file, fn.qualname)] = mf
-    ctx.floor('C18-R4/merge', len(merge_fns), 1, 'recursive merge function(s) reached from Config.load')
-    for (f, q), mf in sorted(merge_fns.items()):
-        if mf.ok is None:
-            ctx.undecided('C18-R4', mf.fi, 'recursive merge', mf.why)
-        ctx.ob('C18-R4', mf.fi, f'{q}: recursive merge semantics (6 cases)', mf.ok, mf.why, line=mf.fi.node.lineno)
     ex = LoadExec(ctx, prog, m, ld, merge_fns)
+    failed = None
     try:
         finals = ex.run()
     except _Undecided as u:
-        ctx.undecided('C18-R4', ld, 'effective data', str(u))
+        finals, failed = [], str(u)
+    used = {k: mf for k, mf in merge_fns.items() if k in ex.used or (failed is not None and k in reach)}
+    for (f, q), mf in sorted(used.items()):
+        if mf.ok is None:
+            ctx.undecided('C18-R4', mf.fi, 'recursive merge', mf.why)
+        ctx.ob('C18-R4', mf.fi, f'{q}: recursive merge semantics (6 cases)', mf.ok, mf.why, line=mf.fi.node.lineno)
+    if failed is not None:
+        ctx.undecided('C18-R4', ld, 'effective data', failed)
     if not finals:
         ctx.undecided('C18-R4', ld, 'model_validate', 'no validation call reached by the symbolic execution of load')
     names = {'D': 'defaults', 'F': 'file', 'K': 'keyword arguments'}
     seen = set()
-    for line, layers, shallow, unknown, absent in finals:
+    n_bad = 0
+    for line, layers, shallow, unknown, absent, notes in finals:
         live = [x for x in layers if x not in absent]
         dedup = []
         for x in live:
@@ -1271,9 +1580,12 @@ def rule_precedence(ctx, prog, m):
         if key in seen:
             continue
         seen.add(key)
-        if unknown and not shallow and dedup == want:
+        if unknown and not shallow and (dedup == want or _real(unknown)):
+            # something the execution could not follow touched the data: it may be what supplies a layer that seems
+            # to be missing or out of place, so nothing is claimed about the order either
             ctx.undecided('C18-R4', ld, f'effective data = {desc}', unknown)
         ok = dedup == want and not shallow and not unknown
+        where = ld
         why = 'defaults overlaid by file overlaid by keyword arguments, each step recursive'
         if shallow:
             why = (f'a merge step is shallow ({shallow}): a keyword (or file) section replaces the whole section below it, so '
@@ -1281,12 +1593,135 @@ def rule_precedence(ctx, prog, m):
         elif dedup != want:
             missing = [names[x] for x in want if x not in dedup]
             why = (f'the data handed to validation is {desc}' + (f' (when {cond})' if cond else '') +
-                   (f': {", ".join(missing)} never reach it' if missing else
+                   (f': {", ".join(missing)} never reach{"es" if len(missing) == 1 and missing[0] != "keyword arguments" else ""} it' if missing else
                     ': the order of precedence is not defaults, then file, then keyword arguments'))
+            poss = {'D': 'the default', 'F': "the file's value", 'K': "the keyword's value"}
+            inv = [(lo, hi) for a_, lo in enumerate(want) for hi in want[a_ + 1:]
+                   if lo in dedup and hi in dedup and len(dedup) - 1 - dedup[::-1].index(lo) > len(dedup) - 1 - dedup[::-1].index(hi)]
+            if inv:
+                why += ' - where both are set, ' + ', '.join(f'{poss[lo]} wins over {poss[hi]}' for lo, hi in inv)
+            if notes:
+                # where a layer was put into a slot named after another layer: the construct to look at
+                why += '; ' + '; '.join(dict.fromkeys(t for _, _, t in notes))
+                if len({(f.file, ln) for f, ln, _ in notes}) == 1:
+                    where, line = notes[0][0], notes[0][1]
         elif unknown:
             why = unknown
-        ctx.ob('C18-R4', ld, f'effective data = {desc}' + (f' [{cond}]' if cond else ''), ok, why, line=line)
+        ctx.ob('C18-R4', where, f'effective data = {desc}' + (f' [{cond}]' if cond else ''), ok, why, line=line)
+        n_bad += not ok
+    if used or not n_bad:
+        # no recursive merge on the way to validation and nothing found wrong: the anchor is lost, not a pass
+        ctx.floor('C18-R4/merge', len(used), 1, 'recursive merge function(s) used by Config.load')
     ctx.stats['load_paths'] = len(finals)
+
+
+# ------------------------------------------------------------------------------------------------------------------
+# R2: is a class of configuration values immutable?
+# ------------------------------------------------------------------------------------------------------------------
+
+def _all_base_exprs(c: ClassInfo):
+    return [b for k in c.mro() for b in k.base_exprs]
+
+
+def _value_kind(c: ClassInfo) -> str | None:
+    """'model' (pydantic) | 'dataclass' | None (enum, NamedTuple, anything else: not judged)"""
+    lasts = [b.split('[')[0].split('.')[-1] for b in _all_base_exprs(c)]
+    if 'BaseModel' in lasts:
+        return 'model'
+    if any(x.endswith('Enum') or x == 'NamedTuple' for x in lasts):
+        return None
+    if any('dataclass' in ast.unparse(d) for k in c.mro() for d in k.node.decorator_list):
+        return 'dataclass'
+    return None
+
+
+def _frozen_setting(prog, m, e, depth=0):
+    """what a settings expression says about `frozen`: True | False | None (nothing) | 'unknown'.  Later entries of a
+    display / call override earlier ones, as they do at run time."""
+    if depth > 4:
+        return 'unknown'
+
+    def lit(v):
+        if isinstance(v, ast.Constant) and isinstance(v.value, bool):
+            return v.value
+        if isinstance(v, ast.Name):
+            r = prog.resolve_name(m, v.id)
+            if isinstance(r, tuple) and r[0] == 'const':
+                w = r[1].constants[r[2]]
+                if isinstance(w, ast.Constant) and isinstance(w.value, bool):
+                    return w.value
+        return 'unknown'
+
+    if isinstance(e, ast.Call) and call_name(e).split('.')[-1] in ('ConfigDict', 'dict'):
+        res = None
+        for a in e.args:
+            r = _frozen_setting(prog, m, a, depth + 1)
+            res = r if r is not None else res
+        for kw in e.keywords:
+            if kw.arg == 'frozen':
+                res = lit(kw.value)
+            elif kw.arg is None:
+                r = _frozen_setting(prog, m, kw.value, depth + 1)
+                res = r if r is not None else res
+        return res
+    if isinstance(e, ast.Dict):
+        res = None
+        for k, v in zip(e.keys, e.values):
+            if k is None:
+                r = _frozen_setting(prog, m, v, depth + 1)
+                res = r if r is not None else res
+            elif isinstance(k, ast.Constant):
+                if k.value == 'frozen':
+                    res = lit(v)
+            else:
+                res = 'unknown'
+        return res
+    if isinstance(e, ast.BinOp) and isinstance(e.op, ast.BitOr):
+        r = _frozen_setting(prog, m, e.right, depth + 1)
+        return r if r is not None else _frozen_setting(prog, m, e.left, depth + 1)
+    if isinstance(e, ast.Name):
+        r = prog.resolve_name(m, e.id)
+        if isinstance(r, tuple) and r[0] == 'const':
+            return _frozen_setting(prog, r[1], r[1].constants[r[2]], depth + 1)
+        return 'unknown'
+    if isinstance(e, ast.Attribute) and e.attr == 'model_config':
+        k = prog.resolve_class_expr(m, e.value)     # `model_config = ConfigDict(**Base.model_config, ...)`
+        if k is not None:
+            fz, _ = _class_frozen(prog, k)
+            return 'unknown' if fz is None else fz
+    return 'unknown'
+
+
+def _class_frozen(prog, c: ClassInfo):
+    """(True | False | None, how).  pydantic merges the settings along the MRO, nearest class first; inside one class the
+    class keywords (`class X(Base, frozen=True)`) override its model_config; a dataclass is frozen by its decorator."""
+    if _value_kind(c) == 'dataclass':
+        for k in c.mro():
+            for d in k.node.decorator_list:
+                if 'dataclass' in ast.unparse(d):
+                    fz = kwarg(d, 'frozen') if isinstance(d, ast.Call) else None
+                    ok = isinstance(fz, ast.Constant) and fz.value is True
+                    return ok, f'@{ast.unparse(d)[:40]} on {k.name}'
+    for k in c.mro():
+        for kw in k.node.keywords:
+            if kw.arg == 'frozen':
+                if isinstance(kw.value, ast.Constant) and isinstance(kw.value.value, bool):
+                    return kw.value.value, f'class keyword frozen={kw.value.value} on {k.name}'
+                return None, f'class keyword frozen={norm(kw.value)[:30]} on {k.name} is not a literal'
+        # a second assignment in one class body replaces the first (class_assignments keeps the last)
+        assigned = k.class_assignments()
+        if 'model_config' in assigned:
+            v = assigned['model_config']
+            fz = _frozen_setting(prog, k.module, v) if v is not None else None
+            if fz == 'unknown':
+                return None, f'cannot tell what `model_config = {norm(v)[:50]}` of {k.name} says about frozen'
+            if fz is not None:
+                return fz, f'model_config of {k.name} sets frozen={fz}'
+    known = {k.name for k in c.mro()}
+    foreign = [b for b in _all_base_exprs(c) if b.split('[')[0].split('.')[-1] not in known | {'BaseModel', 'Generic', 'ABC', 'object', 'Protocol'}]
+    if foreign:
+        return None, f'base class {foreign[0]} is not in the repository: cannot tell whether it freezes the model'
+    return False, 'no class on its MRO (' + ' -> '.join(k.name for k in c.mro()) + ') sets frozen=True'
 
 
 # ------------------------------------------------------------------------------------------------------------------
@@ -1513,34 +1948,28 @@ def run(ctx):
             continue
         seen[c.name] = c
         for f, ann in c.all_fields().items():
+            if isinstance(ann, ast.Constant) and isinstance(ann.value, str):
+                try:
+                    ann = ast.parse(ann.value, mode='eval').body
+                except SyntaxError:
+                    continue
             for node in ast.walk(ann):
+                rc = None
                 if isinstance(node, ast.Name):
                     rc = prog.resolve_name(c.module, node.id)
-                    if isinstance(rc, ClassInfo) and rc.is_subclass_of('CIBaseModel') and rc.name not in seen:
-                        st.append(rc)
+                elif isinstance(node, ast.Attribute):
+                    rc = prog.resolve_class_expr(c.module, node)
+                if isinstance(rc, ClassInfo) and _value_kind(rc) in ('model', 'dataclass') and rc.name not in seen:
+                    st.append(rc)
     ctx.floor('C18-R2', len(seen), 3, 'model classes reachable from Config')
     for name, c in sorted(seen.items()):
-        # pydantic merges model_config along the MRO (a subclass's keys override its bases'); inside one class body a
-        # second assignment simply replaces the first
-        frozen = False
-        for k in c.mro():
-            v = k.class_assignments().get('model_config')
-            fz = None
-            if isinstance(v, ast.Call):
-                fz = kwarg(v, 'frozen')
-                if fz is None and any(kw.arg is None for kw in v.keywords):
-                    fz = ast.Constant(False)   # **unpacked settings: not evidently frozen
-            elif isinstance(v, ast.Dict):
-                for kk, vv in zip(v.keys, v.values):
-                    if isinstance(kk, ast.Constant) and kk.value == 'frozen':
-                        fz = vv
-            elif v is not None:
-                fz = ast.Constant(False)
-            if fz is not None:
-                frozen = isinstance(fz, ast.Constant) and fz.value is True
-                break
+        frozen, how = _class_frozen(prog, c)
+        if frozen is None:
+            ctx.undecided('C18-R2', (c.file, c.name), 'model_config frozen=True', how)
         ctx.ob('C18-R2', (c.file, c.name), 'model_config frozen=True', frozen,
-               'frozen' if frozen else f'{name} is reachable from Config but not frozen: nested values can be changed')
+               f'frozen ({how})' if frozen else
+               f'{name} is reachable from Config but not frozen ({how}): its values can be reassigned on the active configuration',
+               line=c.node.lineno)
 
     # writes that bypass the frozen model: only in functions reachable only from Config's validators
     validators = {(f.file, f.qualname) for f in all_validators}
